@@ -91,6 +91,7 @@ type VC struct {
 	callOrd    map[ssa.Instruction]int
 	callByName map[string]ssa.Instruction
 	callOrdQ   map[ssa.Instruction]string
+	callPC     map[ssa.Instruction]Term
 	curCall    *ssa.CallCommon
 	curClause  Expr
 	curBlock   *ssa.BasicBlock
